@@ -83,6 +83,7 @@ class VLoop(asyncio.BaseEventLoop):
         wraps it in). Its body runs, in one go, at the instant of completion; `on_sync_start` lets the harness log the start."""
         fut = self.create_future()
         base = func
+        keywords: dict[str, Any] = {}
         for _ in range(6):
             if hasattr(base, '__kv_duration__'):
                 break
@@ -90,27 +91,29 @@ class VLoop(asyncio.BaseEventLoop):
             if getattr(base, 'func', None) is not None and inner and callable(inner[0]) and getattr(base.func, '__name__', '') == 'run':
                 base = inner[0]          # partial(context.run, fn)
             elif getattr(base, 'func', None) is not None:
+                keywords = dict(getattr(base, 'keywords', None) or {})   # partial(fn, **kwargs): what the handler is called with
                 base = base.func
             else:
                 break
         duration = float(getattr(base, '__kv_duration__', 0.0) or 0.0)
         hook = getattr(base, '__kv_on_start__', None)
         if hook is not None:
-            hook()
+            hook(**keywords)
 
         def complete() -> None:
-            if fut.done():
-                return
+            # As with a real executor: cancelling the asyncio future does not stop the thread - its body runs to the end anyway
+            # (the side effects happen), only the result has nowhere to go any more.
             try:
-                fut.set_result(func(*args))
+                res = func(*args)
             except BaseException as e:     # noqa: the "thread" ended with an exception
                 if isinstance(e, (KeyboardInterrupt, SystemExit)):
                     raise
-                fut.set_exception(e)
+                if not fut.done():
+                    fut.set_exception(e)
+                return
+            if not fut.done():
+                fut.set_result(res)
         self.call_later(duration, complete)
-        real_cancel = fut.cancel
-        fut.cancel = lambda *a, **k: False      # type: ignore[method-assign]   # a running thread cannot be cancelled
-        fut._kv_real_cancel = real_cancel        # type: ignore[attr-defined]
         return fut
 
     def _factory(self, loop: Any, coro: Any, **kw: Any) -> VTask:
